@@ -219,6 +219,31 @@ func Harness_balance_modes() {
 		}
 		return
 	}
+	// conservation in the collapse modes, for every path set (also when a logged food is a
+	// path-prefix of another): the top-level rows add up to everything that was logged
+	{
+		top, first := 0.0, true
+		for _, r := range rows {
+			if r.depth == 0 {
+				if first {
+					top, first = r.amt, false
+				} else {
+					top += r.amt
+				}
+			}
+		}
+		all, f2 := 0.0, true
+		for _, d := range [][]logged{day2, day1} {
+			for k := len(d) - 1; k >= 0; k-- {
+				if f2 {
+					all, f2 = d[k].q, false
+				} else {
+					all += d[k].q
+				}
+			}
+		}
+		verifAssert("collapse-top-level-sums-to-logged", verifFloatEq(top, all))
+	}
 	// collapse modes: same leaf paths with the same amounts as the default mode, never a
 	// branch dropped, whenever no logged food is a path-prefix of another
 	if !prefixFree {
